@@ -347,6 +347,12 @@ def _assume_nonzero(e):
         return
     ex = get_explorer()
     if ex is not None:
+        if getattr(ex, "div_mode", "assume") == "fork":
+            # faithful model of the float build (the package runs NumPy with divide/invalid = raise):
+            # the zero-divisor branch is explored and ends in an exception
+            if ex.decide(X.eq(e, X.ZERO)):
+                raise ZeroDivisionError("symbolic divisor is zero on this path")
+            return
         ex.assume(X.bnot(X.eq(e, X.ZERO)), "divisor!=0")
 
 
